@@ -245,11 +245,60 @@ func pad32(b []byte) []byte {
 	return out
 }
 
+// blockVRF presents (key, proof, message) to the node's own entry point verifyBlockVRF (round 0,
+// Processor.isCastLegal and the fork verifier call it): the proof as the header's ProveValue, the message as
+// the previous header's beacon value one time slot earlier. The stake is 1, so that every lottery value
+// qualifies, and TotalQN is what validateProve gives for THIS proof: only the VRF verification can refuse.
+func blockVRF(pk vrf.VRFPublicKey, pi []byte, m []byte) (accepted bool, qualified bool) {
+	preBH := &types.BlockHeader{Height: 5, Random: m, TotalQN: 3}
+	q := qualify(pi, preBH.Height+1, 0, 1)
+	bh := &types.BlockHeader{Height: 6, ProveValue: vrf.VRFProve(pi).Big(), CurTime: preBH.CurTime.Add(1e9),
+		TotalQN: preBH.TotalQN + uint64(q.Qn), Castor: []byte{1}, GroupId: []byte{2}}
+	defer func() {
+		if r := recover(); r != nil {
+			accepted = false
+		}
+	}()
+	accepted, _ = logical.VerifVerifyBlockVRF(bh, preBH, &model.MinerInfo{VrfPK: pk, WorkingMiners: 0}, 1)
+	return accepted, q.Ok
+}
+
 func mutations(k keypair, m []byte, pi []byte, stride int) {
 	flip := func(b []byte, bit int) []byte {
 		c := append([]byte(nil), b...)
 		c[bit/8] ^= 1 << uint(bit%8)
 		return c
+	}
+	block := func(part string, bit int, pk vrf.VRFPublicKey, proof []byte, msg []byte) {
+		acc, q := blockVRF(pk, proof, msg)
+		emit("BlockVRF", map[string]interface{}{"part": part, "bit": bit, "accepted": acc, "qualified": q})
+	}
+	block("none", 0, k.pk, pi, m)
+	// forged proofs: a point of the curve that is not Gamma (the hash point itself, the key, Gamma of another
+	// message) with the honest proof's c and s, and with other values of c and s
+	{
+		h := ed25519.VerifHashToCurve(m, ed25519.PublicKey(k.pk))
+		other := gammaOf(k, append(append([]byte(nil), m...), 1))
+		for gi, g := range [][]byte{h[:], k.pk[:32], other[:]} {
+			for v := 0; v < 3; v++ {
+				f := append([]byte(nil), pi...)
+				copy(f[:32], g)
+				if v >= 1 {
+					d := cryptoutil.HashOf("c16-forged", 16*gi+v).Bytes()
+					copy(f[32:48], d[:16])
+					d2 := cryptoutil.HashOf("c16-forged-s", 16*gi+v).Bytes()
+					copy(f[48:80], d2)
+					f[79] &= 0x0f
+				}
+				if v == 2 {
+					for i := 32; i < 80; i++ {
+						f[i] = 0
+					}
+				}
+				emit("Mutate", map[string]interface{}{"part": "forged", "bit": 16*gi + v, "accepted": verify(k.pk, f, m)})
+				block("forged", 16*gi+v, k.pk, f, m)
+			}
+		}
 	}
 	part := func(bit int) string {
 		switch {
@@ -262,6 +311,7 @@ func mutations(k keypair, m []byte, pi []byte, stride int) {
 	}
 	for bit := 0; bit < 640; bit += stride {
 		emit("Mutate", map[string]interface{}{"part": part(bit), "bit": bit, "accepted": verify(k.pk, flip(pi, bit), m)})
+		block(part(bit), bit, k.pk, flip(pi, bit), m)
 	}
 	// an encoding longer than 80 bytes (proof followed by bytes) as the proof, and single-bit flips of its tail
 	for _, extra := range []int{1, 16} {
@@ -289,9 +339,11 @@ func mutations(k keypair, m []byte, pi []byte, stride int) {
 	}
 	for bit := 0; bit < 8*len(m); bit += stride {
 		emit("Mutate", map[string]interface{}{"part": "msg", "bit": bit, "accepted": verify(k.pk, pi, flip(m, bit))})
+		block("msg", bit, k.pk, pi, flip(m, bit))
 	}
 	for bit := 0; bit < 256; bit += stride {
 		emit("Mutate", map[string]interface{}{"part": "pk", "bit": bit, "accepted": verify(vrf.VRFPublicKey(flip(k.pk, bit)), pi, m)})
+		block("pk", bit, vrf.VRFPublicKey(flip(k.pk, bit)), pi, m)
 	}
 }
 
@@ -716,7 +768,7 @@ func main() {
 		boundary(rng, 12)
 	}
 	tr.Close()
-	fmt.Printf("c16: overlong=%d validateLong=%d total=%d msgpair=%d askedAgain=%d retain=%d concurrent=%d boundary=%d prove=%d transport=%d z0=%d z1=%d z2=%d mutate=%d torsion=%d torsionAccepted=%d shiftedAccepted=%d validate=%d qualified=%d events=%d\n",
-		counts["Overlong"], counts["validateLong"], counts["Total"], counts["VrfMsgPair"], counts["askedAgain"], counts["Retain"], counts["Concurrent"], counts["Boundary"], counts["Prove"], counts["Transport"], counts["z0"], counts["z1"], counts["z2"], counts["Mutate"], counts["Torsion"],
+	fmt.Printf("c16: blockVrf=%d overlong=%d validateLong=%d total=%d msgpair=%d askedAgain=%d retain=%d concurrent=%d boundary=%d prove=%d transport=%d z0=%d z1=%d z2=%d mutate=%d torsion=%d torsionAccepted=%d shiftedAccepted=%d validate=%d qualified=%d events=%d\n",
+		counts["BlockVRF"], counts["Overlong"], counts["validateLong"], counts["Total"], counts["VrfMsgPair"], counts["askedAgain"], counts["Retain"], counts["Concurrent"], counts["Boundary"], counts["Prove"], counts["Transport"], counts["z0"], counts["z1"], counts["z2"], counts["Mutate"], counts["Torsion"],
 		counts["torsionAccepted"], counts["shiftedAccepted"], counts["ValidateProve"], counts["qualified"], tr.N)
 }
